@@ -195,10 +195,14 @@ def run(tier):
              ("line", 0x3b, "data2", 65535, ("cst", 65535, None)), ("bytesz", 0x0b, "data4", 0x80000000, ("cst", 0x80000000, "dec")),
              ("upper", 0x2f, "sdata", -7, ("cst", -7, "dec")), ("stmt", 0x10, "sec_offset", 0, ("cst", 0, "hexish")),
              ("ref", 0x49, "ref4", 1, ("die", 1)), ("refu", 0x49, "ref_udata", 1, ("die", 1)), ("refa", 0x49, "ref_addr", 1, ("die", 1)),
-             ("strp", 3, "strp", b"pooled", ("str", b"pooled"))]
+             ("strp", 3, "strp", b"pooled", ("str", b"pooled")),
+             # the dwz alt file: a string of its .debug_str, a DIE of its .debug_info (at the offset of a main-file DIE)
+             ("strpalt", 3, "GNU_strp_alt", b"alt\xfepooled", ("str", b"alt\xfepooled")), ("refalt", 0x49, "GNU_ref_alt", 901, ("altdie", 901))]
     for i, (nm, atn, form, val, exp) in enumerate(specs):
         kids.append({"id": 100 + i, "tag": 0x34, "children": [], "attrs": [{"name": atn, "form": form, "value": val}]})
-    f2 = {"units": [{"kind": "cu", "version": 4, "table": 0, "root": {"id": 1, "tag": 0x11, "children": kids, "attrs": []}}]}
+    f2 = {"units": [{"kind": "cu", "version": 4, "table": 0, "root": {"id": 1, "tag": 0x11, "children": kids, "attrs": []}}],
+          "alt_units": [{"kind": "pu", "version": 4, "table": 0, "root": {"id": 900, "tag": 0x3c, "attrs": [], "children": [
+              {"id": 901, "tag": 0x24, "children": [], "attrs": [{"name": 3, "form": "strp", "value": b"alt\xfepooled"}]}]}}]}
     o2, offs2, _ = dwarfgen.build(f2, wd, "c07b")
     b2 = D.Built(o2, offs2)
     r2 = D.run_queries(drv, [(o2, "entry (offset != 0xb) [offset, [attribute value]]", False)], wd, "c07b")[0]
@@ -219,7 +223,8 @@ def run(tier):
                     if ok and exp[2] == "dec": ok = v0["dom"] == "dec"
                     if ok and exp[2] in ("addr", "hexish"): ok = v0["show"].startswith("0x") or exp[1] == 0
                 elif exp[0] == "named": ok = v0["t"] == "cst" and v0["show"] == exp[1]
-                elif exp[0] == "die": ok = v0["t"] == "die" and b2.rev.get(v0["off"]) == exp[1]
+                elif exp[0] == "die": ok = v0["t"] == "die" and not v0.get("alt") and b2.rev.get(v0["off"]) == exp[1]
+                elif exp[0] == "altdie": ok = v0["t"] == "die" and v0.get("alt") and D.die_id(b2, v0)[0] == exp[1]
             if not ok:
                 vd.observe("attribute %s (%s) decodes wrongly" % (nm, form), {"expected": str(exp), "observed": g})
             else:
